@@ -16,7 +16,8 @@
  *                                                     teardown (cost per k independent of k).  Events after the first
  *                                                     thread creation are replayed from the start in a fresh child
  *                                                     (trunk=0 forces replay for every k: used to cross-check).
- * opts : key=value ...   w,h,lp,preset,hl (encoder) | ivf=<file> threads=N (decoder) | quiesce_ms, hard_s, gdb=0|1
+ * opts : key=value ...   w,h,lp,preset,hl (encoder) | ivf=<file> threads=N (decoder) | quiesce_ms, hard_s, cpu_s, gdb=0|1
+ *        (hard_timeout in the result: 1 = wall-clock limit, 2 = CPU-time limit cpu_s exceeded)
  *
  * Events are numbered 1.. over the whole session in the order the API-calling thread performs them; only that
  * thread is counted (kernel threads start during init and allocate on their own), only while an API call of the
@@ -180,7 +181,7 @@ int __wrap_pthread_mutex_init(pthread_mutex_t *m, const pthread_mutexattr_t *a) 
 
 /* ------------------------------------------------------------ options */
 static int         o_w = 64, o_h = 64, o_lp = 1, o_preset = 8, o_hl = 3, o_threads = 2, o_gdb = 1, o_frames = 1, o_trunk = 1;
-static long        o_quiesce_ms = 5000, o_hard_s = 300;
+static long        o_quiesce_ms = 5000, o_hard_s = 300, o_cpu_s = 90;
 static const char *o_ivf;
 static uint8_t *   g_ivf;
 static size_t      g_ivf_len;
@@ -205,6 +206,7 @@ static void parse_opts(int argc, char **argv, int from) {
         OPT("trunk", o_trunk, atoi(v));
         OPT("quiesce_ms", o_quiesce_ms, atol(v));
         OPT("hard_s", o_hard_s, atol(v));
+        OPT("cpu_s", o_cpu_s, atol(v));
         OPT("ivf", o_ivf, v);
     }
 }
@@ -406,6 +408,27 @@ static void snap(pid_t pid, Snap *s) {
     closedir(d);
 }
 
+/* CPU seconds (user + system, all threads) the process has consumed */
+static long cpu_seconds(pid_t pid) {
+    char path[64], buf[1024];
+    snprintf(path, sizeof(path), "/proc/%d/stat", (int)pid);
+    FILE *f = fopen(path, "r");
+    if (!f)
+        return 0;
+    size_t n = fread(buf, 1, sizeof(buf) - 1, f);
+    fclose(f);
+    buf[n]  = 0;
+    char *p = strrchr(buf, ')'); /* comm may contain spaces */
+    if (!p)
+        return 0;
+    unsigned long ut = 0, st = 0;
+    /* after ')': state ppid pgrp session tty tpgid flags minflt cminflt majflt cmajflt utime stime */
+    if (sscanf(p + 1, " %*c %*d %*d %*d %*d %*d %*u %*u %*u %*u %*u %lu %lu", &ut, &st) != 2)
+        return 0;
+    long hz = sysconf(_SC_CLK_TCK);
+    return (long)((ut + st) / (unsigned long)(hz > 0 ? hz : 100));
+}
+
 /* children of the child (LSan's tracer, the symbolizer) mean it is busy, not dead-locked */
 static int has_children(pid_t pid) {
     char path[128], buf[64];
@@ -460,6 +483,12 @@ static void supervise(const char *out, long k, FILE *fres, pid_t pid, int rfd, u
             prev = s;
             if (same_ms >= o_quiesce_ms) {
                 hang = 1;
+                break;
+            }
+            /* a session needs well under a second of CPU: one that has burnt cpu_s seconds is spinning (the
+             * decoder synchronises its threads by busy-waiting on flags), not progressing slowly */
+            if (o_cpu_s > 0 && cpu_seconds(pid) > o_cpu_s) {
+                hard = 2;
                 break;
             }
         }
